@@ -122,12 +122,35 @@ Definition run (line : list N) : list N :=
       else if str_eqb f $"basis" then match parse_nat a, parse_nat b with Some n, Some i => r_ok (prl (basis n i)) | _, _ => r_badcase end
       else r_badcase
   | [f; a; b; c] =>
-      if str_eqb f $"basisidx" then match parse_nat a, parse_nat b, parse_nat c with
+      (* argument identity shapes: the integer argument is the object at position a of list b;
+         c says which positions share one object.  The model has value semantics: c is not used. *)
+      if str_eqb f $"indexat" then match parse_nat a, pl b with
+                                   | Some j, Some l => match nth_error l j with Some n => r_ok (print_decZ (index n l)) | None => r_badcase end
+                                   | _, _ => r_badcase end
+      else if str_eqb f $"containsat" then match parse_nat a, pl b with
+                                   | Some j, Some l => match nth_error l j with Some n => r_ok (print_bool (contains n l)) | None => r_badcase end
+                                   | _, _ => r_badcase end
+      else if str_eqb f $"containssortedat" then match parse_nat a, pl b with
+                                   | Some j, Some l => match nth_error l j with Some n => r_ok (print_bool (contains_sorted n l)) | None => r_badcase end
+                                   | _, _ => r_badcase end
+      else if str_eqb f $"insertat" then match parse_nat a, pl b with
+                                   | Some j, Some l => match nth_error l j with Some n => r_ok (prl (insert_sorted_unique l n)) | None => r_badcase end
+                                   | _, _ => r_badcase end
+      else if str_eqb f $"mergeat" then match pl b with Some l => r_ok (prl (merge_unique l l)) | None => r_badcase end
+      else if str_eqb f $"concatat" then match pl b with Some l => r_ok (prl (concat l l)) | None => r_badcase end
+      else if str_eqb f $"basisidx" then match parse_nat a, parse_nat b, parse_nat c with
                                    | Some n, Some i, Some j => print_outcome prz (basis_idx n i j)
                                    | _, _, _ => r_badcase end
       else if str_eqb f $"extract" then match pz a, parse_decN b, parse_decN c with
                                    | Some x, Some l, Some h => r_ok (prz (extract x l h))
                                    | _, _, _ => r_badcase end
+      else r_badcase
+  | [f; a; b; c; d] =>
+      if str_eqb f $"minmaxat" then match parse_nat a, parse_nat b, pl c with
+                                    | Some i, Some j, Some l => match nth_error l i, nth_error l j with
+                                                                | Some x, Some y => let '(mn, mx) := min_max x y in r_ok (prz mn ++ [sp] ++ prz mx)
+                                                                | _, _ => r_badcase end
+                                    | _, _, _ => r_badcase end
       else r_badcase
   | _ => r_badcase
   end.
